@@ -1,12 +1,18 @@
 #!/usr/bin/env python3
 """Run the pinned test suite on a source tree and compare with BASELINE.json stable_pass.
 usage: baseline_compare.py [repo_dir]   (default /repo)"""
-import json, subprocess, sys, tempfile, os, xml.etree.ElementTree as ET
+import json, signal, subprocess, sys, tempfile, os, xml.etree.ElementTree as ET
+
+
+def _sigint_default():
+    # background jobs of a non-interactive shell inherit SIGINT=ignored, which breaks the suite's KeyboardInterrupt tests
+    signal.signal(signal.SIGINT, signal.SIG_DFL)
+
 repo = sys.argv[1] if len(sys.argv) > 1 else "/repo"
 base = json.load(open("/root/.vp/BASELINE.json"))
 out = tempfile.mktemp(suffix=".xml")
 env = dict(os.environ, PYTHONPATH=os.path.join(repo, "src"))
-subprocess.run(["/venv/bin/python", "-m", "pytest", "-q", "-p", "no:cacheprovider", "--timeout=900", "--continue-on-collection-errors", "--junitxml=" + out, "-x" if "-x" in sys.argv else "-q"], cwd=repo, env=env, stdout=subprocess.DEVNULL, stderr=subprocess.DEVNULL)
+subprocess.run(["/venv/bin/python", "-m", "pytest", "-q", "-p", "no:cacheprovider", "--timeout=900", "--continue-on-collection-errors", "--junitxml=" + out, "-x" if "-x" in sys.argv else "-q"], cwd=repo, env=env, stdout=subprocess.DEVNULL, stderr=subprocess.DEVNULL, preexec_fn=_sigint_default)
 passed = set()
 for tc in ET.parse(out).getroot().iter("testcase"):
     if not any(c.tag in ("failure", "error", "skipped") for c in tc):
@@ -29,7 +35,7 @@ for attempt in range(2):
             (rest if (p_[:1].isupper() and mod) else mod).append(p_)
         ids.append("/".join(mod) + ".py::" + "::".join(rest + [name]))
     out2 = tempfile.mktemp(suffix=".xml")
-    subprocess.run(["/venv/bin/python", "-m", "pytest", "-q", "-p", "no:cacheprovider", "--timeout=900", "--junitxml=" + out2] + ids, cwd=repo, env=env, stdout=subprocess.DEVNULL, stderr=subprocess.DEVNULL)
+    subprocess.run(["/venv/bin/python", "-m", "pytest", "-q", "-p", "no:cacheprovider", "--timeout=900", "--junitxml=" + out2] + ids, cwd=repo, env=env, stdout=subprocess.DEVNULL, stderr=subprocess.DEVNULL, preexec_fn=_sigint_default)
     try:
         for tc in ET.parse(out2).getroot().iter("testcase"):
             if not any(c.tag in ("failure", "error", "skipped") for c in tc):
